@@ -284,6 +284,8 @@ class Engine:
         none = self.const(None)
         ax.append(z3.ForAll([x], self.pyeq(x, none) == (x == none), patterns=[self.pyeq(x, none)]))
         ax.append(z3.ForAll([x], self.pyeq(none, x) == (x == none), patterns=[self.pyeq(none, x)]))
+        # None is the only instance of NoneType
+        ax.append(z3.ForAll([x], (self.typeof(x) == self.const(type(None))) == (x == none), patterns=[self.typeof(x)]))
         if getattr(self, "uses_unitems", False):
             m = z3.Const("m!unitems", self.V)
             items = self._callfn(Call(("meth", "items"), "items", [Tm(m)]))
@@ -302,7 +304,7 @@ class Engine:
                     pass
             for n in self.attr_names:
                 try:
-                    ax.append(self.hasattr_(ca, self.const(n)) == bool(hasattr(a, n)))
+                    ax.append(self.hasattr_(ca, self.const(n)) == bool(hasattr(a, n) or any(n in vars(k) for k in a.__mro__)))
                 except Exception:
                     pass
         return ax
@@ -1338,8 +1340,9 @@ class Executor:
             anyr = z3.Or(*[c for c, _ in inner.raises])
             hy = z3.And(*inner.hyps) if inner.hyps else z3.BoolVal(True)
             cond = z3.Exists(bound, z3.And(mem, hy, anyr))
-            self.eng.n += 1
-            ctx.add_raise(cond, Exc(None, term=eng.fresh("exc_in_comp"), origin="comprehension body"))
+            et = eng.fresh("exc_in_comp")
+            ctx.hyps.append(eng.issub(eng.typeof(et), eng.const(Exception)))  # A3
+            ctx.add_raise(cond, Exc(None, term=et, origin="comprehension body"))
         if inner.hyps:
             ctx.hyps.append(z3.ForAll(bound, z3.Implies(mem, z3.And(*inner.hyps)), patterns=[mem]))
         ctx.ghosts.extend(("each", tuple(bound), mem, gh) for gh in inner.ghosts)
@@ -1412,7 +1415,7 @@ class Executor:
         if isinstance(recv, (LL, Comp, KeySet)):
             raise NotInSubset(f"method {name} on a local container", node)
         t = eng.term(recv)
-        if not self.assume_hasattr:
+        if not self.assume_hasattr and not isinstance(recv, Call):
             eng.attr_names.add(name)
             ctx.add_raise(
                 z3.Not(eng.hasattr_(eng.typeof(t), eng.const(name))),
